@@ -34,7 +34,7 @@ type vpSrv struct {
 }
 
 type vpSrvOpts struct {
-	Sched             int // 0 default (RFC 9218), 1 round-robin, 2 random, 3 RFC 7540 priority
+	Sched             int // 0 default (RFC 9218), 1 round-robin, 2 random, 3 RFC 7540 priority, 4 RFC 7540 with write throttling
 	MaxStreams        uint32
 	MaxReadFrame      uint32
 	UploadPerConn     int32
@@ -53,6 +53,10 @@ func vpSched(k int) func() WriteScheduler {
 		return NewRandomWriteScheduler
 	case 3:
 		return func() WriteScheduler { return NewPriorityWriteScheduler(nil) }
+	case 4:
+		return func() WriteScheduler {
+			return NewPriorityWriteScheduler(&PriorityWriteSchedulerConfig{ThrottleOutOfOrderWrites: true})
+		}
 	}
 	return nil
 }
